@@ -5,6 +5,16 @@ HERE = os.path.dirname(os.path.dirname(os.path.abspath(__file__)))
 
 # id -> (level category, technique, level text, level note, design ref)
 CHECKS = {
+ "C02": ("exploration",
+         "property-based testing (proptest) over update histories, caller- and optimizer-driven, with recomputation oracle",
+         "Generated histories of parameter updates (caller-driven and LM-driven through a probing wrapper) and one real fit per case; after every update residuals(), weighted_data(), params() and after the fit best_fit()/nonlinear_parameters() are recomputed independently in f64 from the model's own Phi and compared componentwise.",
+         "Trusted: harness f64 arithmetic; Phi as evaluated by the model; componentwise rounding bound 8(M+4) u_T.",
+         "§4 C02"),
+ "C03": ("exploration",
+         "property-based testing (proptest) with projector oracle, finite-difference gradient oracle and exhaustive derivative-fault injection per case",
+         "Generated problems visited along histories; every Jacobian column is checked against the orthogonality/range characterisation of -(I-P) W D_k C, the harness' own projector, Richardson finite differences of the projected objective, and each derivative call of jacobian() is made to fail in turn (None expected).",
+         "Trusted: harness f64 linear algebra, catalogue formulas (self-tested by central differences); premise full column rank decided by the oracle's singular values; tolerances calibrated by a reference pipeline (nalgebra SVD).",
+         "§4 C03"),
  "C01": ("exploration",
          "property-based testing (proptest, 16 seeded shards) with independent linear-algebra oracle + metamorphic linearity relation",
          "Generated search over models x alpha x data x weights x thresholds x flavours, visiting construction, caller updates and every LM trial step; each reported coefficient matrix is checked against optimality predicates (truncated normal equations, minimum norm) and an independently written f64 Jacobi-SVD pseudo-inverse. Establishes absence of violations only on the explored cases; shrunk counterexamples become replay files.",
